@@ -276,6 +276,7 @@ type Config struct {
 	IgnoreTd    bool
 	IgnoreUntil bool
 	Cleanup     bool
+	Combined    bool // cleanup.Combine of two handlers, one per group of dependents
 	Concurrency uint
 }
 
@@ -287,6 +288,7 @@ var Configs = []Config{
 	{Name: "Q", Q: true, Fin: true, Concurrency: 2},
 	{Name: "Q", Q: true, Fin: true, IgnoreUntil: true, Concurrency: 1},
 	{Name: "CL", Cleanup: true},
+	{Name: "CL", Cleanup: true, Combined: true},
 }
 
 type gateT struct {
@@ -391,11 +393,22 @@ func runBehaviour(t *testing.T, tr *vh.Trace, tid string, cfg Config, beh []Cmd)
 
 		if cfg.Cleanup {
 			// dependents of input rN are the B resources labelled parent=rN (ids rN and r(N+10))
+			byGroup := func(grp string) cleanup.Handler[*A] {
+				return cleanup.HasNoOutputs[*B](func(in *A) state.ListOption {
+					return state.WithLabelQuery(resource.LabelEqual("parent", in.Metadata().ID()), resource.LabelEqual("grp", grp))
+				})
+			}
+
+			handler := cleanup.HasNoOutputs[*B](func(in *A) state.ListOption {
+				return state.WithLabelQuery(resource.LabelEqual("parent", in.Metadata().ID()))
+			})
+			if cfg.Combined {
+				handler = cleanup.Combine(byGroup("x"), byGroup("f"))
+			}
+
 			err = rtm.RegisterController(cleanup.NewController(cleanup.Settings[*A]{
-				Name: cfg.Name,
-				Handler: cleanup.HasNoOutputs[*B](func(in *A) state.ListOption {
-					return state.WithLabelQuery(resource.LabelEqual("parent", in.Metadata().ID()))
-				}),
+				Name:    cfg.Name,
+				Handler: handler,
 			}))
 		} else if cfg.Q {
 			opts := []qtransform.ControllerOption{qtransform.WithConcurrency(cfg.Concurrency)}
@@ -475,6 +488,7 @@ func runBehaviour(t *testing.T, tr *vh.Trace, tid string, cfg Config, beh []Cmd)
 					if cur, gerr := st.Get(ctx, aPtr(c.ID)); gerr == nil && cur.Metadata().Phase() == resource.PhaseRunning {
 						b := NewB(rid(dep), 1)
 						b.Metadata().Labels().Set("parent", rid(c.ID))
+						b.Metadata().Labels().Set("grp", map[bool]string{true: "x", false: "f"}[c.C == "addX"])
 						st.Create(ctx, b) //nolint:errcheck
 					}
 				} else {
